@@ -1,9 +1,13 @@
 #!/bin/bash
 # usage: tools/mut.sh <Cxx> <file-relative-to-repo> <python-regex-old> <new> [vcheck args]
-# applies one textual mutation to /repo, runs the check, reverts. Development tooling only.
+# applies one textual mutation to a scratch worktree of /repo (HEAD), runs the check against it
+# (VERIF_REPO), removes the change. Development tooling only; never touches /repo itself.
 prop=$1; file=$2; old=$3; new=$4; shift 4
-cd /repo || exit 9
-git diff --quiet || { echo "repo dirty"; exit 9; }
+WT=/var/tmp/mutrepo
+if [ ! -d $WT ]; then git -C /repo worktree add -q --detach $WT HEAD || exit 9; fi
+cd $WT || exit 9
+git checkout -q --detach $(git -C /repo rev-parse HEAD) 2>/dev/null
+git checkout -q -- .
 python3 - "$file" "$old" "$new" <<'PY'
 import sys,re
 f,old,new=sys.argv[1:4]
@@ -15,6 +19,6 @@ PY
 rc=$?
 if [ $rc -eq 0 ]; then
   git diff --stat | tail -1
-  (cd /verif && ./vcheck $prop "$@" 2>&1 | grep -v "^  " | grep "VIOLATION\|tier=\|HARNESS" | cut -c1-200 | head -${MUT_LINES:-4})
+  (cd /verif && VERIF_REPO=$WT ./vcheck $prop "$@" 2>&1 | grep -v "^  " | grep "VIOLATION\|tier=\|HARNESS" | cut -c1-200 | head -${MUT_LINES:-3})
 fi
 git checkout -q -- .
